@@ -468,6 +468,13 @@ def _correspond_case(ck, op, call, sp, ans, stats):
                     d.append(f"model: returns {json.dumps(exp)[:200]}; real raised {sp['raised']}: {sp.get('msg', '')[:120]}")
                 else:
                     _cmp("output Var types", [[k, t] for k, t in zip(out_keys(cls, call), sp["types"])], exp, d)
+    # Type._to_onnx / Type._from_onnx vs the model's toProto / fromProto
+    if sp.get("proto_obs_error"):
+        brk(ck, "correspondence", "not observable: Type._to_onnx / Type._from_onnx", sp["proto_obs_error"])
+    if sp.get("proto_obs") is not None and "to_proto" in ans:
+        stats["type_proto_compared"] += len(sp["proto_obs"]["to"]) + len(sp["proto_obs"]["from"])
+        _cmp("Type._to_onnx of the operand types (field presence included)", sp["proto_obs"]["to"], ans["to_proto"], d)
+        _cmp("Type._from_onnx of the TypeProtos ONNX answered with", sp["proto_obs"]["from"], ans.get("from_proto", []), d)
     # the supplements that run the standard routine first: their own rules on top of its answer
     if "loop_own" in ans and sp["raised"] is None:
         stats["loop_own_compared"] += 1
